@@ -1195,6 +1195,10 @@ func c05r1(c *core.Ctx) {
 			msg += ": " + strings.Join(dedup(v.reasons), "; ")
 		}
 		if why, ok := c05Exceptions[key]; ok && !v.ok {
+			if strings.Contains(why, "arg-max") && !strictArgMax(info, rs) {
+				c.Fail(key, posOf(p, rs), "the loop is excepted as a strict arg-max selection, but no assignment of the selected candidate is guarded by a comparison between the candidate's measure and the measure of the candidate selected so far: the last matching entry in map order wins")
+				return
+			}
 			c.Pass(key, posOf(p, rs), "reasoned exception: "+why+" [classifier said: "+strings.Join(dedup(v.reasons), "; ")+"]")
 			return
 		}
@@ -1607,4 +1611,74 @@ func isSyncOnceOrMutex(t types.Type) bool {
 		return true
 	}
 	return false
+}
+
+// strictArgMax: the range body assigns a variable declared outside the loop
+// only under a strict comparison whose two sides mention the loop's key/value on
+// one side and that same variable (the best so far) on the other.
+func strictArgMax(info *types.Info, rs *ast.RangeStmt) bool {
+	loopVars := map[types.Object]bool{}
+	for _, e := range []ast.Expr{rs.Key, rs.Value} {
+		if id, ok := e.(*ast.Ident); ok {
+			if o := info.Defs[id]; o != nil {
+				loopVars[o] = true
+			}
+		}
+	}
+	mentions := func(e ast.Expr, pred func(o types.Object) bool) bool {
+		found := false
+		ast.Inspect(e, func(n ast.Node) bool {
+			if id, ok := n.(*ast.Ident); ok {
+				if o := info.Uses[id]; o != nil && pred(o) {
+					found = true
+				}
+			}
+			return true
+		})
+		return found
+	}
+	ok := false
+	bad := false
+	walkStack(rs.Body, func(n ast.Node, stack []ast.Node) bool {
+		as, isAs := n.(*ast.AssignStmt)
+		if !isAs || as.Tok != token.ASSIGN {
+			return true
+		}
+		for _, l := range as.Lhs {
+			id, isId := l.(*ast.Ident)
+			if !isId {
+				continue
+			}
+			best := info.Uses[id]
+			if best == nil || loopVars[best] || (best.Pos() >= rs.Body.Pos() && best.Pos() <= rs.Body.End()) {
+				continue
+			}
+			guarded := false
+			for _, anc := range stack {
+				ifs, isIf := anc.(*ast.IfStmt)
+				if !isIf {
+					continue
+				}
+				ast.Inspect(ifs.Cond, func(c ast.Node) bool {
+					be, isBe := c.(*ast.BinaryExpr)
+					if !isBe || (be.Op != token.GTR && be.Op != token.LSS) {
+						return true
+					}
+					isLoop := func(o types.Object) bool { return loopVars[o] }
+					isBest := func(o types.Object) bool { return o == best }
+					if (mentions(be.X, isLoop) && mentions(be.Y, isBest)) || (mentions(be.Y, isLoop) && mentions(be.X, isBest)) {
+						guarded = true
+					}
+					return true
+				})
+			}
+			if guarded {
+				ok = true
+			} else {
+				bad = true
+			}
+		}
+		return true
+	})
+	return ok && !bad
 }
